@@ -153,8 +153,24 @@ class Probe:
     a tuple, a list and a dict probe on fixed targets of its own and logs the behaviour"""
     def __init__(self, run, path):
         self.run, self.path = run, tuple(path)
+        self.in_first = VARS_FLAVOUR[0] == 'firstkey'     # probe from inside the key spec of First
 
     def glomit(self, target, scope):
+        if self.in_first:
+            from glom import Iter
+            from glom.streaming import First
+            outer = self
+
+            class Key:
+                def glomit(self, t, sc):
+                    outer._probe(sc)
+                    return True
+            scope[GLOM]([target], Pipe(Iter(), First(Key())), scope)      # (a Pipe chains in every mode)
+        else:
+            self._probe(scope)
+        return target
+
+    def _probe(self, scope):
         seen = []
         for tgt, spec in ((PROBE_TARGET, 'p'), (PROBE_TARGET, ('p',)), ([PROBE_TARGET], ['p']), (PROBE_TARGET, {'k': 'p'})):
             try:
@@ -172,7 +188,6 @@ class Probe:
         except Exception as e:
             seen.append('E:' + type(e).__name__)
         self.run.log.append({'p': list(self.path), 'what': 'mode', 'v': classify(seen), 'raw': repr(seen)})
-        return target
 
     def __repr__(self):
         return 'Probe%s' % ''.join(str(i) for i in self.path)
@@ -261,7 +276,8 @@ class Read:
                 def glomit(self, t, sc):
                     box.append(sc[GLOM](t, outer.spec, sc))
                     return True
-            scope[GLOM]([target], Auto(Iter().first(Key())), scope)      # (Auto: first() is a tuple of two steps)
+            from glom.streaming import First
+            scope[GLOM]([target], Pipe(Iter(), First(Key())), scope)      # (a Pipe chains in every mode)
             v = box[0] if box else ('key-not-evaluated',)
         else:
             v = scope[GLOM](target, self.spec, scope)
